@@ -107,8 +107,8 @@ class EventLog:
         self.keep = keep
         self.head: list[Any] = []  # the first `keep` events, for replay files/samples
 
-    def add(self, kind: str, **fields: Any) -> None:
-        ev = {"k": kind, **fields}
+    def add(self, _ev: str, /, **fields: Any) -> None:
+        ev = {"k": _ev, **fields}
         s = jdump(ev)
         self._h.update(s.encode())
         self._h.update(b"\n")
@@ -148,6 +148,7 @@ class Outcome:
     events: int = 0
     log_head: list[Any] = field(default_factory=list)
     coverage_keys: list[str] = field(default_factory=list)  # state/cell coverage keys
+    narrowed: dict | None = None  # an explicit single-configuration case reproducing the violation
 
 
 class SutError(Exception):
